@@ -222,9 +222,44 @@ def gen_cookie(rng, tier):
     return cfg + "|" + ";".join(ops)
 
 
+def gen_stagger(rng, tier):
+    """2..5 queries sent at DIFFERENT instants that share the one TCP connection of a silent server
+    (usevc, or moved there by a TC reply): when the oldest times out only IT may be re-sent; the
+    attempts of the younger ones must run their own base timeout."""
+    T = rng.choice([1, 2, 2, 3])
+    M = rng.choice([100, 250])
+    usevc = rng.random() < 0.6
+    cfg = "servers=1 tries=%d timeout=%d maxtimeout=%d idseq=%d qcachettl=0 seed=%d" % (
+        T, rng.choice([250, 500, 2000]), M, rng.choice([1, 100, 65530]), rng.randint(1, 10 ** 6))
+    fl = (["usevc"] if usevc else []) + (["stayopen"] if rng.random() < 0.3 else [])
+    if fl:
+        cfg += " flags=" + ",".join(fl)
+    ops = []
+    nq = rng.choice([2, 2, 3, 4, 5])
+    for i in range(nq):
+        ops.append("send %d q%d.example IN A rd%s" % (i, i, " edns" if rng.random() < 0.5 else ""))
+        if not usevc:
+            ops.append("rsp xl tc=1")        # truncated: the query moves to the TCP connection
+            ops.append("proc")
+        ops.append("proc")                   # connect completes / frame written
+        if i < nq - 1:
+            ops.append("adv %d" % rng.choice([1, M // 10, M // 4, M // 3, M // 2, M - 1]))
+    step = rng.choice([M // 10, M // 5, M // 4, M // 3])
+    for _ in range((T + 1) * (M // step + 2) + 4):
+        ops.append("adv %d" % step)
+        ops.append("proc")
+        if rng.random() < 0.05:
+            ops.append("proc")
+    for _ in range(T + 4):
+        ops.append("adv %d" % M)
+        ops.append("proc")
+    ops.append("qlen")
+    return cfg + "|" + ";".join(ops)
+
+
 def gen(rng, tier, n):
     out = []
     for _ in range(n):
         r = rng.random()
-        out.append(gen_flap(rng, tier) if r < 0.12 else gen_cookie(rng, tier) if r < 0.22 else gen_case(rng, tier))
+        out.append(gen_flap(rng, tier) if r < 0.12 else gen_cookie(rng, tier) if r < 0.22 else gen_stagger(rng, tier) if r < 0.30 else gen_case(rng, tier))
     return out
